@@ -52,13 +52,15 @@ func nonSkipSummary(w *World, fn *ssa.Function) (*Summary, int) {
 
 var reUnmarshalPayload = regexp.MustCompile(`^EQ\(call:encoding/json\.Unmarshal\((.+)\.EnvelopeContent\.Payload\.Content,(alloc:ngo/internal/envelope\.Payload<[^>]*>)\)#err,nil\)$`)
 
-func integrityNeeds(w *World) []Need {
+func integrityNeeds(w *World, fn *ssa.Function) []Need {
 	pt, _ := w.constString("internal/envelope", "MediaTypePayloadV1")
+	q := regexp.QuoteMeta
+	sig, opts := q(paramWhere(fn, isByteSlice)), q(paramWhere(fn, hasField("SignatureMediaType")))
 	return []Need{
 		{Name: "parse-envelope", What: "signature.ParseEnvelope(mediaType, signature bytes) err == nil, applied to the entry point's signature and media-type parameters",
-			Re: regexp.MustCompile(`^EQ\(call:core/signature\.ParseEnvelope\(param:opts\.SignatureMediaType,param:signature\)#err,nil\)$`)},
+			Re: regexp.MustCompile(`^EQ\(call:core/signature\.ParseEnvelope\(` + opts + `\.SignatureMediaType,` + sig + `\)#err,nil\)$`)},
 		{Name: "envelope-verify", What: "Envelope.Verify() err == nil on the envelope that was parsed",
-			Re: regexp.MustCompile(`^EQ\(call:invoke:core/signature\.Envelope\.Verify\(call:core/signature\.ParseEnvelope\(param:opts\.SignatureMediaType,param:signature\)#0\)#err,nil\)$`)},
+			Re: regexp.MustCompile(`^EQ\(call:invoke:core/signature\.Envelope\.Verify\(call:core/signature\.ParseEnvelope\(` + opts + `\.SignatureMediaType,` + sig + `\)#0\)#err,nil\)$`)},
 		{Name: "payload-type", What: "content type of the verified payload == envelope.MediaTypePayloadV1",
 			Re: regexp.MustCompile(`^EQ\(call:invoke:core/signature\.Envelope\.Verify\(.*\)#0\.Payload\.ContentType,const:` + regexp.QuoteMeta(fmt.Sprintf("%q", pt)) + `\)$`)},
 	}
@@ -107,7 +109,7 @@ func c01Entry(c *Ctx, fn *ssa.Function, kind string) {
 	if nskip == 0 {
 		c.Notes = append(c.Notes, fnName(fn)+": no level==skip gate recognised; every success exit is treated as non-skip")
 	}
-	c.requireOnExits(pre, fn, sum.Exits, integrityNeeds(w))
+	c.requireOnExits(pre, fn, sum.Exits, integrityNeeds(w, fn))
 
 	// payload decode: Unmarshal(outcome.EnvelopeContent.Payload.Content, *envelope.Payload)
 	var payloadAlloc, outcomeDesc string
@@ -161,9 +163,10 @@ func c01Entry(c *Ctx, fn *ssa.Function, kind string) {
 	ta := payloadAlloc + ".TargetArtifact"
 	if kind == "oci" {
 		q := regexp.QuoteMeta
+		pd := q(paramWhere(fn, isNamed("ocispec.Descriptor")))
 		c.requireOnExits(pre, fn, sum.Exits, []Need{
 			{Name: "descriptor-equal", What: "content.Equal(signed payload target, desc parameter) == true (or the three field equalities)",
-				Re: regexp.MustCompile(`^T\(call:oras/content\.Equal\((` + q(ta) + `,param:desc|param:desc,` + q(ta) + `)\)\)$`)},
+				Re: regexp.MustCompile(`^T\(call:oras/content\.Equal\((` + q(ta) + `,` + pd + `|` + pd + `,` + q(ta) + `)\)\)$`)},
 		})
 	} else {
 		c01BlobBinding(c, fn, fi, sum, ta, outcomeDesc)
@@ -176,7 +179,7 @@ func c01BlobBinding(c *Ctx, fn *ssa.Function, fi *FnInfo, sum *Summary, ta, outc
 	q := regexp.QuoteMeta
 	hash := `call:\(core/internal/algorithm\.Algorithm\)\.Hash\((` + q(outcomeDesc) + `\.EnvelopeContent\.SignerInfo\.SignatureAlgorithm|…)\)`
 	lookup := `global:ngo/verifier\.algorithms\[` + hash + `\]`
-	gen := `call:dyn:param:descGenFunc\(` + lookup + `\)`
+	gen := `call:dyn:` + q(paramWhere(fn, isFuncType)) + `\(` + lookup + `\)`
 	both := func(a, b string) string { return `(` + a + `,` + b + `|` + b + `,` + a + `)` }
 	c.requireOnExits("blob", fn, sum.Exits, []Need{
 		{Name: "algorithm-lookup", What: "digest algorithm = algorithms[hash of the signature algorithm of the verified envelope], lookup miss fail-closed",
@@ -224,7 +227,7 @@ func c01Metadata(c *Ctx, fn *ssa.Function, fi *FnInfo, payloadAlloc, pre string)
 	rule := "path obligation (recursive through module calls): on every non-skip success path the required-metadata check over the signed payload's annotations returned nil, bypassable only by len(UserMetadata) == 0"
 	memo := map[string]bool{}
 	var verifiers []string
-	ok, wit, site := c01MetaHolds(c, fn, "param:opts.UserMetadata", map[string]string{payloadAlloc: "payload"}, true, 0, memo, &verifiers, pre)
+	ok, wit, site := c01MetaHolds(c, fn, paramWhere(fn, hasField("UserMetadata"))+".UserMetadata", map[string]string{payloadAlloc: "payload"}, true, 0, memo, &verifiers, pre)
 	c.Evals++
 	if ok {
 		c.OK(pre+"/metadata-gate", rule, site)
